@@ -43,7 +43,9 @@ MkArgs(s, ds) == [i \in 1..Len(ds) |-> ArgVal(ds[i], IF IsParam(ParamOf(s, i)) T
 \* one parameter, exhaustive
 OneSpecs == {[ps |-> <<p>>, var |-> NoParam, tcb |-> t, icb |-> i, rr |-> r] : p \in Params, t \in Tcbs, i \in Icbs, r \in BOOLEAN}
             \cup {[ps |-> <<>>, var |-> p, tcb |-> t, icb |-> i, rr |-> r] : p \in Params, t \in Tcbs, i \in Icbs, r \in BOOLEAN}
-ThinCb(s) == Thorough \/ (s.tcb \in {"okT", "panic"} /\ s.icb \in {"conf", "nonconf", "unknown"} /\ s.rr)
+\* (the full callback product made the thorough one-parameter family exceed its generation time limit; the thorough tier now takes
+\*  the same thinned callback menu here and covers the remaining callback behaviours through its larger sampled family)
+ThinCb(s) == s.tcb \in {"okT", "panic"} /\ s.icb \in {"conf", "nonconf", "unknown"} /\ s.rr
 \* a RefineResult that states "null": meaningful only for implementations whose every result is unknown (anything else is the function author's error)
 NullRefined(S0) == {s @@ [rrk |-> "null"] : s \in {x \in S0 : x.rr /\ x.icb \in {"unknown", "err"}}}
 \* derived functions (WithNewDescriptions, Unpredictable, Proxy) of the string-parameter specifications
